@@ -338,6 +338,7 @@ theorem rematerialise_cache (s : St) (ts : List Ent) : (s.rematerialise ts).1.ca
   unfold St.rematerialise
   apply forEach_rel (fun s s' => s'.cache = s.cache) (fun _ => rfl) (fun _ _ _ h1 h2 => h2.trans h1)
   intro s1 e
+  unfold St.rematOne
   repeat' split
   all_goals first | rfl | exact recheckFromCache_cache _ _ _ _
 
